@@ -168,6 +168,8 @@ def make_state(kind_sv, content):
         return CState(**content)
     if kind_sv == "parent":
         return PState(**content)
+    if kind_sv == "parent0":
+        return PState()            # nothing passed: every field unset, at its default
     raise ValueError(kind_sv)
 
 
